@@ -155,6 +155,9 @@ class Labware:
                 initial_volumes = initial_volumes.astype(float)
             except OverflowError:
                 raise ValueError("initial_volume cannot be above max_volume")
+        if initial_volumes.dtype.kind == "f" and initial_volumes.dtype.itemsize < 8:
+            # the volumes are kept in double precision: a single-precision 0.1 is more than 0.1 then
+            initial_volumes = initial_volumes.astype(float)
         if initial_volumes.shape == ():
             initial_volumes = np.full((rows, columns), initial_volumes)
         else:
